@@ -13,7 +13,7 @@ from ..core import Machinery
 LEVEL = "exploration"
 MODULES = ["KDF", "HashAlgs", "AesAead", "AES", "Salsa20", "Blowfish", "SHA256", "SHA1", "SHA512", "MD5", "MD2", "CipherWords"]
 SLOW_MODULES = ["KDFBcryptKat", "KDFBcryptKat2", "KDFBcryptKat3"]          # minutes each: thorough tier (and ./check setup)
-LABEL = {"pbkdf1": "PBKDF1", "pbkdf2": "PBKDF2", "hkdf": "HKDF", "sp108": "SP800_108_Counter", "scrypt": "scrypt", "bcrypt": "bcrypt",
+LABEL = {"s2vobj": "S2V", "pbkdf1": "PBKDF1", "pbkdf2": "PBKDF2", "hkdf": "HKDF", "sp108": "SP800_108_Counter", "scrypt": "scrypt", "bcrypt": "bcrypt",
          "bcrypt_check": "bcrypt_check", "s2v": "S2V"}
 F10_KEY = "S2V: empty vector returns CMAC(K, zero) instead of CMAC(K, <one>)"
 
@@ -147,6 +147,9 @@ def describe(t):
     elif a == "bcrypt_check":
         d.update(password=bytes(t["pw"]).hex(), offered_hash=bytes(t["offered"]).decode("latin-1"), offer=t["what"], hash_type=t["conv"],
                  bcrypt_of_password_under_offered_cost_and_salt=bytes(t["ref"]["out"]).decode("latin-1") if t["ref"]["has"] else None)
+    elif a == "s2vobj":
+        d.update(key=bytes(t["key"]).hex(), object_history=[[e["op"], bytes(e["data"]).hex() if e["op"] == "update" else bytes(e["out"]).hex(), e["exc"]] for e in t["events"]][:12],
+                 n_calls=len(t["events"]))
     elif a == "s2v":
         d.update(key=bytes(t["key"]).hex(), components=[bytes(c).hex() for c in t["comps"]][:6], n_components=len(t["comps"]), returned=bytes(t["out"]).hex())
     return d
@@ -323,7 +326,8 @@ def run(ctx):
                 "scrypt: (N,r,p) grid plus N in {0,1,3,5,6,12,17,2^10+1,2^16 (r=1),2^32,..}, r=0, p=0, p*r beyond the bound. bcrypt: EksBlowfish values at "
                 "cost 4, structure at costs 4..10, cost 0/2/3/32/33/100, salt 0/1/15/17/32 bytes, passwords 0..72/73/74/100/144 bytes and with NUL; "
                 "bcrypt_check: genuine (bytes/bytearray/text), one changed character at positions of all 60, other passwords, malformed strings. "
-                "S2V: 0..3 components of 0/1/15/16/17/32 bytes, 127 and 128 components, 3 key sizes. Bytes random from the seed; "
+                "S2V: 0..3 components of 0/1/15/16/17/32 bytes, 127 and 128 components, 3 key sizes; histories on one S2V object (update and derive interleaved, "
+                "derive repeated, the 128th component refused). Bytes random from the seed; "
                 "evaluations = calls judged (+1 for the single-key stream of a multi-key call); distinct = distinct argument tuples")
     ctx.assume("the TLA+ transcriptions in spec/data (KDF and the primitives it instantiates) are right; they are pinned by the standards' vectors "
                "(RFC 6070, RFC 5869 A, RFC 7914 8/11/12, RFC 5297 A.1, crypt_blowfish) and by values of OpenSSL/hashlib/crypt(3) as ASSUMEs, self-tested in this run"
